@@ -287,7 +287,38 @@ func c09Exec(c *c09Case, faults map[int]c09F, st *CaseStats) (rewrites int, repa
 		}
 		return nil
 	}
-	waitDrain := func() error {
+	// listAt reads the whole prefix at a revision that has been reported readable; "" when the read is refused
+	listAt := func(rev uint64) string {
+		l, err := env.B.List(ctx, &proto.RangeRequest{Key: []byte(Prefix + "/"), End: end, Revision: rev})
+		if err != nil {
+			return ""
+		}
+		return fmtKVs(l.Kvs)
+	}
+	var waitDrain func() error
+	drain := func() error { return nil }
+	waitDrain = func() error {
+		// a read at a revision that is already readable must give the same answer after the repair has run
+		if err := settleAll(); err != nil {
+			return err
+		}
+		rev := env.B.GetCurrentRevision()
+		before := ""
+		if backend.RetryQueueLenForVerif(env.B) > 0 {
+			before = listAt(rev)
+		}
+		if err := drain(); err != nil {
+			return err
+		}
+		if before != "" {
+			if after := listAt(rev); after != "" && after != before {
+				return fmt.Errorf("a read at revision %d answered %s while an unknown-outcome write was waiting for its repair and %s after the repair: a read at a revision already reported readable must not change", rev, before, after)
+			}
+			st.Label("historic-read-repeated-across-a-repair")
+		}
+		return nil
+	}
+	drain = func() error {
 		deadline := time.Now().Add(10 * time.Second)
 		if err := settleAll(); err != nil {
 			return err
